@@ -44,8 +44,8 @@ PROPS["C17"] = dict(
 
 PROPS["C11"] = dict(
     modules=["Hub.Props.C11"],
-    gens=["c11", "c17empty", "c11verify", "c11race", "c11end"],
-    rule="(c11.end, child processes) a job with or without a JavaScript transform, with or without a log handler for failing entities, incremental or full sync, sink accepting or rejecting everything, run through the real job.Run: afterwards a result is stored for the job, failed exactly when the sink rejected (a fatal error of the process is an observation); (c11.race) eight goroutines ask the real raffle for a ticket for the same job id at the same moment, 1500 rounds (thorough 20000) in a child process: never more than one ticket "
+    gens=["c11", "c17empty", "c11verify", "c11race", "c11end", "c11kill"],
+    rule="(c11.kill, child process, real time) a run is killed while it is inside a source call that ignores the cancellation for 6.5 s; requests for the same job id 1, 5.6 and 6.1 s after the start must be skipped (never two runs of one id inside the pipeline), and when the run is back the ticket pools hold what they held before; (c11.end, child processes) a job with or without a JavaScript transform, with or without a log handler for failing entities, incremental or full sync, sink accepting or rejecting everything, run through the real job.Run: afterwards a result is stored for the job, failed exactly when the sink rejected (a fatal error of the process is an observation); (c11.race) eight goroutines ask the real raffle for a ticket for the same job id at the same moment, 1500 rounds (thorough 20000) in a child process: never more than one ticket "
          "per round, pools intact afterwards; (c11.verify) generated job definitions (1-3 triggers of type cron/onchange/unknown, job types, schedules, monitored datasets, error handler lists with known, unknown and duplicate "
          "types) through the scheduler's own verify: accepted iff the model's verify, and every accepted definition has its per-entity handlers initialised on every trigger; "
          "random borrow/return sequences (5 job ids, pools 0..2 fullsync / 0..3 incremental) against the real raffle, state compared after "
